@@ -45,3 +45,51 @@ pub fn detail(subject: &Subject, v: &V, extra: Vec<(&str, Js)>) -> Js {
     items.extend(extra);
     Js::obj(items)
 }
+
+// ---------------------------------------------------------------- codecs
+
+use apache_avro::{Bzip2Settings, Codec, DeflateSettings, XzSettings, ZstandardSettings};
+use miniz_oxide::deflate::CompressionLevel;
+
+pub const DEFLATE_LEVELS: &[CompressionLevel] = &[
+    CompressionLevel::NoCompression,
+    CompressionLevel::BestSpeed,
+    CompressionLevel::DefaultLevel,
+    CompressionLevel::BestCompression,
+    CompressionLevel::UberCompression,
+    CompressionLevel::DefaultCompression,
+];
+
+/// Every codec with a generated valid level. `cheap` keeps xz/bzip2 levels low.
+pub fn gen_codec(c: &mut Choices, cheap: bool) -> Codec {
+    match c.weighted(&[4, 4, 3, 2, 2, 2]) {
+        0 => Codec::Null,
+        1 => Codec::Deflate(DeflateSettings::new(DEFLATE_LEVELS[c.pick(DEFLATE_LEVELS.len())])),
+        2 => Codec::Snappy,
+        3 => Codec::Zstandard(ZstandardSettings::new(if cheap { c.pick(6) as u8 } else { c.pick(23) as u8 })),
+        4 => Codec::Bzip2(Bzip2Settings::new(1 + c.pick(9) as u8)),
+        _ => Codec::Xz(XzSettings::new(if cheap { c.pick(4) as u8 } else { c.pick(10) as u8 })),
+    }
+}
+
+pub fn codec_name(codec: &Codec) -> String {
+    match codec {
+        Codec::Null => "null".into(),
+        Codec::Deflate(s) => format!("deflate/{}", s.compression_level()),
+        Codec::Snappy => "snappy".into(),
+        Codec::Zstandard(s) => format!("zstandard/{}", s.compression_level),
+        Codec::Bzip2(s) => format!("bzip2/{}", s.compression_level),
+        Codec::Xz(s) => format!("xz/{}", s.compression_level),
+    }
+}
+
+pub fn codec_kind(codec: &Codec) -> &'static str {
+    match codec {
+        Codec::Null => "null",
+        Codec::Deflate(_) => "deflate",
+        Codec::Snappy => "snappy",
+        Codec::Zstandard(_) => "zstandard",
+        Codec::Bzip2(_) => "bzip2",
+        Codec::Xz(_) => "xz",
+    }
+}
